@@ -480,7 +480,12 @@ func (e *Engine) Generate(prop, tier string, seed uint64, run int) *sim.Plan {
 				switch st.Op {
 				case "newbug", "edit", "commit", "identmut", "remove", "pull", "merge":
 					if st.F == "" && st.K != "pull-api" && er.Chance(0.12) {
-						st.F = fmt.Sprintf("ioerr:%s:%d:%d", []string{"any", "any", "nospace", "rename"}[er.Intn(4)], er.Intn(14), []int{1, 1, 2, 3, 8, 1000}[er.Intn(6)])
+						class := []string{"any", "any", "nospace", "rename", "read", "read"}[er.Intn(6)]
+						k, n := er.Intn(14), []int{1, 1, 2, 3, 8, 1000}[er.Intn(6)]
+						if class == "read" {
+							k, n = er.Intn(40), []int{1, 1, 2, 3}[er.Intn(4)] // an object or a ref that cannot be read just now
+						}
+						st.F = fmt.Sprintf("ioerr:%s:%d:%d", class, k, n)
 					}
 				}
 			}
